@@ -44,7 +44,7 @@ func runC15(r *an.Run) {
 	}
 
 	r.Obl("settle-sites-and-their-conditions", "GUARD",
-		"the package's settle-resolution sites are exactly: updateMpp (1), updateLegacy (2), resolveReplayedHtlc (1) through ctx.settleRes, and the two registry fan-outs over HTLCs already in state Settled; each updateMpp / updateLegacy site sits below the full condition list of its path",
+		"the package's settle-resolution sites are exactly: updateMpp (1), updateLegacy (2), resolveReplayedHtlc (1) through ctx.settleRes, and the two registry fan-outs over HTLCs already in state Settled; each updateMpp / updateLegacy settle site sits below the full condition list of its path, and every accept site of those two functions (an HTLC held for a partial set, a hold invoice or a duplicate) below the conditions that do not depend on completeness (state, address, totals, both expiry margins)",
 		"one missing condition releases the preimage for an underpaid, misaddressed, too-late or incomplete set", 30,
 		func(o *an.Obl) {
 			want := map[string]int{iv + "updateMpp": 1, iv + "updateLegacy": 2, iv + "resolveReplayedHtlc": 1}
@@ -87,14 +87,26 @@ func runC15(r *an.Run) {
 			// updateMpp
 			f := p.Func(iv + "updateMpp")
 			total := an.LocalNamed("totalAmt")
-			for _, s := range f.Calls(an.CalleeIs(iv+"invoiceUpdateCtx.settleRes"), false) {
+			// conditions every recorded HTLC of the MPP path must meet,
+			// whether it is held (accept) or completes the set (settle)
+			mppCommon := func(s an.Site) {
 				guarded(o, f, s, an.Cmp(state, an.EQ, cst("ContractOpen"), "inv.State == ContractOpen"))
 				guarded(o, f, s, an.Truth(an.CallTo("bytes.Equal", nil, an.LocalNamed("paymentAddr"), nil), true, "bytes.Equal(paymentAddr, inv.Terms.PaymentAddr[:])"))
 				guarded(o, f, s, an.Cmp(total, an.NE, an.IntConst(0), "totalAmt != 0"))
 				guarded(o, f, s, an.CmpX(total, an.GE, terms("Value"), "totalAmt >= inv.Terms.Value"))
 				expiryOK(o, f, s)
+			}
+			for _, s := range f.Calls(an.CalleeIs(iv+"invoiceUpdateCtx.settleRes"), false) {
+				mppCommon(s)
 				guarded(o, f, s, an.Truth(an.LocalNamed("setComplete"), true, "setComplete"))
 				guarded(o, f, s, an.Truth(an.FieldPath(inv, "HodlInvoice"), false, "!inv.HodlInvoice"))
+			}
+			accs := f.Calls(an.CalleeIs(iv+"invoiceUpdateCtx.acceptRes"), false)
+			if need(o, f, "accept resolutions (partial set, hold invoice)", accs, 2) {
+				for _, s := range accs {
+					o.Site("accept %s", s.String())
+					mppCommon(s)
+				}
 			}
 			// the address compared is the invoice's
 			for _, s := range f.Calls(an.CalleeIs("bytes.Equal"), false) {
@@ -172,7 +184,7 @@ func runC15(r *an.Run) {
 
 			// updateLegacy
 			g := p.Func(iv + "updateLegacy")
-			for _, s := range g.Calls(an.CalleeIs(iv+"invoiceUpdateCtx.settleRes"), false) {
+			legacyCommon := func(s an.Site) {
 				guarded(o, g, s, an.Truth(an.CallNamed("IsAMP", inv), false, "!inv.IsAMP()"))
 				guarded(o, g, s, an.Cmp(state, an.NE, cst("ContractCanceled"), "inv.State != ContractCanceled"))
 				guarded(o, g, s, an.CmpX(an.FieldPath(ctxT, "amtPaid"), an.GE, terms("Value"), "ctx.amtPaid >= inv.Terms.Value"))
@@ -180,6 +192,16 @@ func runC15(r *an.Run) {
 					an.Truth(an.CallTo(iv+"isValidKeySend", nil), true, ""),
 					an.Truth(an.LocalNamed("paymentAddrRequired"), false, "")))
 				expiryOK(o, g, s)
+			}
+			laccs := g.Calls(an.CalleeIs(iv+"invoiceUpdateCtx.acceptRes"), false)
+			if need(o, g, "accept resolutions (duplicate, hold invoice)", laccs, 2) {
+				for _, s := range laccs {
+					o.Site("accept %s", s.String())
+					legacyCommon(s)
+				}
+			}
+			for _, s := range g.Calls(an.CalleeIs(iv+"invoiceUpdateCtx.settleRes"), false) {
+				legacyCommon(s)
 				guarded(o, g, s, an.Cmp(state, an.NE, cst("ContractAccepted"), "inv.State != ContractAccepted"))
 				guarded(o, g, s, an.AnyOf("not a hold invoice, or already settled",
 					an.Truth(an.FieldPath(inv, "HodlInvoice"), false, ""),
@@ -261,6 +283,59 @@ func runC15(r *an.Run) {
 			}
 			if n != 1 {
 				o.FailAt(f.ID+"#child-check", f.Where(f.Body.Pos()), "expected one per-child hash check, found %d", n)
+			}
+			// which preimage goes to which HTLC: the new HTLC (child 0, whose
+			// hash was compared with ctx.hash) and, for the others, the
+			// child at the position whose hash was compared with that HTLC
+			nPre := 0
+			var cmpKey string
+			for _, v := range f.Graph().V {
+				switch n := v.Node.(type) {
+				case *ast.AssignStmt:
+					if len(n.Lhs) != 1 || len(n.Rhs) != 1 {
+						continue
+					}
+					ix, ok := n.Lhs[0].(*ast.IndexExpr)
+					if !ok || an.Text(ix.X) != "htlcPreimages" {
+						continue
+					}
+					nPre++
+					k, val := f.Canon(ix.Index), f.Canon(n.Rhs[0])
+					o.Site("htlcPreimages[%s] = %s", k, val)
+					switch {
+					case k == "$p0.circuitKey":
+						if !reMatch(`^amp\.ReconstructChildren\(.*\)\[0\]\.Preimage$`, val) {
+							o.FailAt(f.ID+"#new-htlc-preimage", f.Where(n.Pos()), "the new HTLC receives %s, expected children[0].Preimage (the child whose hash was compared with ctx.hash)", val)
+						}
+					case reMatch(`\[\$key\(amp\.ReconstructChildren\(.*\)\[1:\]\)\]$`, k):
+						if !reMatch(`^\$elem\(amp\.ReconstructChildren\(.*\)\[1:\]\)\.Preimage$`, val) {
+							o.FailAt(f.ID+"#set-htlc-preimage", f.Where(n.Pos()), "the HTLC at position idx receives %s, expected the preimage of the child at that position", val)
+						}
+						if cmpKey != "" && cmpKey != k {
+							o.FailAt(f.ID+"#set-htlc-key", f.Where(n.Pos()), "preimages are stored under %s but hashes were compared for %s", k, cmpKey)
+						}
+					default:
+						o.FailAt(f.ID+"#preimage-key", f.Where(n.Pos()), "a preimage is stored under %s", k)
+					}
+					if id, ok := ast.Unparen(ix.Index).(*ast.Ident); ok && cmpKey == "" {
+						_ = id
+					}
+				}
+			}
+			// the compared HTLC of the loop: htlcSet[indexToCircuitKey[idx]]
+			for _, v := range f.Graph().V {
+				as, ok := v.Node.(*ast.AssignStmt)
+				if !ok || len(as.Lhs) != 1 || an.Text(as.Lhs[0]) != "htlc" {
+					continue
+				}
+				c := f.Canon(as.Rhs[0])
+				o.Site("compared HTLC: %s", c)
+				if !reMatch(`^\$p1\[.*\[\$key\(amp\.ReconstructChildren\(.*\)\[1:\]\)\]\]$`, c) {
+					o.FailAt(f.ID+"#compared-htlc", f.Where(as.Pos()), "the HTLC whose hash is compared is %s, expected htlcSet[indexToCircuitKey[idx]] for the child's position idx", c)
+				}
+			}
+			if nPre != 2 {
+				o.FailAt(f.ID+"#preimage-sites", f.Where(f.Body.Pos()), "expected 2 preimage assignments, found %d", nPre)
 			}
 			g := p.Func(iv + "updateMpp")
 			for _, s := range g.Assigns(an.LocalNamed("htlcPreimage"), false) {
@@ -390,6 +465,26 @@ func runC15(r *an.Run) {
 			if nSet != 1 {
 				o.FailAt(g.ID+"#settle-site", g.Where(g.Body.Pos()), "expected one place that yields HtlcStateSettled, found %d", nSet)
 			}
+			// the "changed" verdict of trySettle: only when persisting and settled
+			nCh := 0
+			for _, lf := range g.Lits {
+				for _, s := range lf.Returns() {
+					rs := s.Node.(*ast.ReturnStmt)
+					if len(rs.Results) != 3 || an.Text(rs.Results[1]) != "newState" {
+						continue
+					}
+					nCh++
+					c := lf.Canon(rs.Results[0])
+					o.Site("trySettle changed = %s", c)
+					be, ok := ast.Unparen(rs.Results[0]).(*ast.BinaryExpr)
+					if !ok || be.Op.String() != "&&" || an.Text(be.X) != "persist" || an.Text(be.Y) != "settled" {
+						o.FailAt(g.ID+"#changed-verdict", s.Where(), "trySettle reports a change when %s, expected persist && settled", an.Text(rs.Results[0]))
+					}
+				}
+			}
+			if nCh != 1 {
+				o.FailAt(g.ID+"#changed-site", g.Where(g.Body.Pos()), "expected one return of the new state in trySettle, found %d", nCh)
+			}
 			// trySettle(true) only under ContractSettled
 			for _, s := range g.AllCalls(false) {
 				c := s.Node.(*ast.CallExpr)
@@ -435,6 +530,32 @@ func runC15(r *an.Run) {
 				for _, s := range fn.Calls(an.CalleeIs(iv+"resolveHtlc"), false) {
 					a := fn.ArgCanon(s)
 					o.Site("%s state=%s", s.String(), a[2])
+					// the state written is the one the decision was made for
+					type row struct{ state, ctxState, changed string }
+					tab := map[string]row{
+						iv + "cancelHTLCs":       {"invoices.HtlcStateCanceled", "", ""},
+						iv + "addHTLCs":          {`^invoices\.getUpdatedHtlcState\(.*\)#1$`, "", "htlcStateChanged"},
+						iv + "settleHodlInvoice": {"invoices.HtlcStateSettled", "invoices.ContractSettled", "settled"},
+						iv + "cancelInvoice":     {"invoices.HtlcStateCanceled", "invoices.ContractCanceled", "canceled"},
+					}
+					if rw, ok := tab[fn.ID]; ok {
+						if a[2] != rw.state && !(strings.HasPrefix(rw.state, "^") && reMatch(rw.state, a[2])) {
+							o.FailAt(fn.ID+"#resolveHtlc-state", s.Where(), "%s records HTLC state %s, expected %s", fn.ID, a[2], rw.state)
+						}
+						if rw.changed != "" {
+							guarded(o, fn, s, an.Truth(an.LocalNamed(rw.changed), true, rw.changed+" (getUpdatedHtlcState reported a change)"))
+						}
+						for _, gs := range fn.Calls(an.CalleeIs(iv+"getUpdatedHtlcState"), false) {
+							ga := fn.ArgCanon(gs)
+							o.Site("%s decides for htlc=%s invoice state=%s", fn.ID, ga[0], ga[1])
+							if rw.ctxState != "" && ga[1] != rw.ctxState {
+								o.FailAt(fn.ID+"#decision-state", gs.Where(), "%s asks getUpdatedHtlcState about invoice state %s, expected %s", fn.ID, ga[1], rw.ctxState)
+							}
+							if ga[0] != a[1] {
+								o.FailAt(fn.ID+"#decision-htlc", gs.Where(), "%s decides for %s but resolves %s", fn.ID, ga[0], a[1])
+							}
+						}
+					}
 					switch fn.ID {
 					case iv + "cancelHTLCs":
 						mustPass(o, fn, "canCancelSingleHtlc", fn.Calls(an.CalleeIs(iv+"canCancelSingleHtlc"), false), an.OkErrNil, []an.Site{s})
@@ -477,12 +598,33 @@ func runC15(r *an.Run) {
 					guarded(o, f, s, an.Truth(an.LocalNamed("invoiceIsAMP"), true, "AMP invoice"))
 				case strings.HasSuffix(c, ".Amt"):
 					guarded(o, f, s, an.Truth(an.LocalNamed("invoiceStateReady"), true, "HTLC accepted or settled"))
+					isAMP := an.Truth(an.LocalNamed("invoiceIsAMP"), true, "AMP invoice")
+					istate := an.FieldPath(an.Param(0), "State")
+					if amp, _ := f.Guarded(s, isAMP); amp {
+						guarded(o, f, s, an.Cmp(istate, an.EQ, cst("ContractOpen"), "invoice.State == ContractOpen (AMP invoices stay open)"))
+						guarded(o, f, s, an.Truth(an.LocalNamed("ok"), true, "the HTLC is one of update.AddHtlcs"))
+					} else {
+						guarded(o, f, s, an.Truth(an.LocalNamed("invoiceIsAMP"), false, "not an AMP invoice"))
+						guarded(o, f, s, an.Cmp(istate, an.NE, cst("ContractOpen"), "invoice.State != ContractOpen"))
+					}
+					onlyGuards(o, f, s, []string{`^invoiceStateReady$`, `^!?\(?invoiceIsAMP\)?$`, `^invoice\.State [!=]= ContractOpen$`, `^ok$`, `^!\(err != nil\)$`}, "amount accumulation")
 				default:
 					o.FailAt(f.ID+"#amt-operand", s.Where(), "amount paid accumulates %s", c)
 				}
 			}
 			if n != 3 {
 				o.FailAt(f.ID+"#amt-sites", f.Where(f.Body.Pos()), "expected 3 accumulation sites in addHTLCs, found %d", n)
+			}
+			// what "ready" means: the HTLC is Accepted or Settled
+			rd := f.Assigns(an.LocalNamed("invoiceStateReady"), false)
+			if need(o, f, "definition of invoiceStateReady", rd, 1) {
+				for _, d := range rd {
+					c := f.Canon(d.Node.(*ast.AssignStmt).Rhs[0])
+					o.Site("invoiceStateReady := %s", c)
+					if c != "(($elem($p0.Htlcs).State == invoices.HtlcStateAccepted) || ($elem($p0.Htlcs).State == invoices.HtlcStateSettled))" {
+						o.FailAt(f.ID+"#ready-definition", d.Where(), "an HTLC counts towards the amount paid when %s, expected its state to be Accepted or Settled", c)
+					}
+				}
 			}
 		})
 
